@@ -165,6 +165,120 @@ pub fn cmp_item(model: &Node, real: &Item, path: &str) -> Result<(), String> {
     }
 }
 
+
+/// "every value's type": the typed accessors and predicates of Item / Value / toml::Value must all tell the same
+/// story as the variant that holds the data (a predicate that answers for the wrong type is a wrong decode for
+/// every caller that goes through it)
+fn accessor_laws(doc: &DocumentMut, tv: &toml::Value) -> Result<(), String> {
+    fn value(v: &toml_edit::Value, path: &str) -> Result<(), String> {
+        use toml_edit::Value as V;
+        let flags = [v.is_str(), v.is_integer(), v.is_float(), v.is_bool(), v.is_datetime(), v.is_array(), v.is_inline_table()];
+        let gets = [v.as_str().is_some(), v.as_integer().is_some(), v.as_float().is_some(), v.as_bool().is_some(), v.as_datetime().is_some(), v.as_array().is_some(), v.as_inline_table().is_some()];
+        let idx = match v {
+            V::String(_) => 0,
+            V::Integer(_) => 1,
+            V::Float(_) => 2,
+            V::Boolean(_) => 3,
+            V::Datetime(_) => 4,
+            V::Array(_) => 5,
+            V::InlineTable(_) => 6,
+        };
+        let names = ["string", "integer", "float", "boolean", "datetime", "array", "inline table"];
+        for i in 0..7 {
+            if flags[i] != (i == idx) || gets[i] != (i == idx) {
+                return Err(format!("value at {} is a {} but is_{}() = {}, as_{}().is_some() = {}", path, names[idx], names[i], flags[i], names[i], gets[i]));
+            }
+        }
+        if v.type_name() != names[idx] {
+            return Err(format!("value at {} is a {} but type_name() says {:?}", path, names[idx], v.type_name()));
+        }
+        let item = Item::Value(v.clone());
+        let iflags = [item.is_str(), item.is_integer(), item.is_float(), item.is_bool(), item.is_datetime(), item.is_array(), item.is_inline_table()];
+        if iflags != flags || !item.is_value() || item.is_table() || item.is_array_of_tables() || item.is_none() || item.is_table_like() != (idx == 6) || item.type_name() != v.type_name() {
+            return Err(format!("Item wrapping the value at {} answers its predicates differently from the value ({:?} vs {:?}, type {:?})", path, iflags, flags, item.type_name()));
+        }
+        match v {
+            V::Array(a) => {
+                for (i, x) in a.iter().enumerate() {
+                    value(x, &format!("{}[{}]", path, i))?;
+                }
+            }
+            V::InlineTable(t) => {
+                for (k, x) in t.iter() {
+                    value(x, &format!("{}.{}", path, k))?;
+                }
+            }
+            _ => {}
+        }
+        Ok(())
+    }
+    fn table(t: &toml_edit::Table, path: &str) -> Result<(), String> {
+        for (k, item) in t.iter() {
+            let p = format!("{}.{}", path, k);
+            match item {
+                Item::Value(v) => value(v, &p)?,
+                Item::Table(sub) => {
+                    if !item.is_table() || !item.is_table_like() || item.is_value() || item.is_array_of_tables() || item.is_none() || item.as_table().is_none() || item.as_value().is_some() || item.type_name() != "table" {
+                        return Err(format!("table at {} answers its Item predicates wrongly (type_name {:?})", p, item.type_name()));
+                    }
+                    table(sub, &p)?;
+                }
+                Item::ArrayOfTables(a) => {
+                    if !item.is_array_of_tables() || item.is_table() || item.is_value() || item.is_none() || item.as_array_of_tables().is_none() || item.type_name() != "array of tables" {
+                        return Err(format!("array of tables at {} answers its Item predicates wrongly (type_name {:?})", p, item.type_name()));
+                    }
+                    for (i, el) in a.iter().enumerate() {
+                        table(el, &format!("{}[{}]", p, i))?;
+                    }
+                }
+                Item::None => return Err(format!("iteration of {} yields an Item::None under key {:?}", path, k)),
+            }
+        }
+        Ok(())
+    }
+    fn tvalue(v: &toml::Value, path: &str) -> Result<(), String> {
+        use toml::Value as V;
+        let flags = [v.is_str(), v.is_integer(), v.is_float(), v.is_bool(), v.is_datetime(), v.is_array(), v.is_table()];
+        let gets = [v.as_str().is_some(), v.as_integer().is_some(), v.as_float().is_some(), v.as_bool().is_some(), v.as_datetime().is_some(), v.as_array().is_some(), v.as_table().is_some()];
+        let (idx, name) = match v {
+            V::String(_) => (0, "string"),
+            V::Integer(_) => (1, "integer"),
+            V::Float(_) => (2, "float"),
+            V::Boolean(_) => (3, "boolean"),
+            V::Datetime(_) => (4, "datetime"),
+            V::Array(_) => (5, "array"),
+            V::Table(_) => (6, "table"),
+        };
+        for i in 0..7 {
+            if flags[i] != (i == idx) || gets[i] != (i == idx) {
+                return Err(format!("toml::Value at {} is a {} but predicate / accessor #{} answers {} / {}", path, name, i, flags[i], gets[i]));
+            }
+        }
+        if v.type_str() != name || !v.same_type(v) {
+            return Err(format!("toml::Value at {} is a {} but type_str() says {:?} (same_type(self) = {})", path, name, v.type_str(), v.same_type(v)));
+        }
+        match v {
+            V::Array(a) => {
+                for (i, x) in a.iter().enumerate() {
+                    tvalue(x, &format!("{}[{}]", path, i))?;
+                }
+            }
+            V::Table(t) => {
+                for (k, x) in t.iter() {
+                    if v.get(k.as_str()).is_none() {
+                        return Err(format!("toml::Value::get({:?}) finds nothing at {} although iteration yields the key", k, path));
+                    }
+                    tvalue(x, &format!("{}.{}", path, k))?;
+                }
+            }
+            _ => {}
+        }
+        Ok(())
+    }
+    table(doc.as_table(), "root")?;
+    tvalue(tv, "root")
+}
+
 pub fn c02_eval(bytes: &[u8], uni: &'static str, acc: &mut Acc) {
     let Ok(text) = std::str::from_utf8(bytes) else { return };
     let model = ref_parse(text);
@@ -226,6 +340,7 @@ pub fn c02_eval(bytes: &[u8], uni: &'static str, acc: &mut Acc) {
         if vc != mcs {
             return Err(format!("toml::Value {} differs from spec {}", vc, mcs));
         }
+        accessor_laws(&doc, &v)?;
         let v2: toml::Value = toml_edit::de::from_str(text).map_err(|e| format!("toml_edit::de::from_str rejected: {}", e.message()))?;
         if canon_toml_value(&v2, true) != mcs {
             return Err(format!("toml_edit::de::from_str::<Value> {} differs from spec {}", canon_toml_value(&v2, true), mcs));
